@@ -26,6 +26,32 @@ def call_builtin(ex, st: State, name: str, args, kwargs, node):
     m = M()
     if name == '_noop':
         return [(st, NONE)]
+    if name == 'iter' and len(args) == 1:
+        # iterator over a list / tuple / deque: an object remembering the sequence and a position
+        v = ex.concrete_kind(st, args[0], ('ref',))
+        if v.kind == 'tuple':
+            v = st.new_list(list(v.py))
+        if v.kind == 'ref' and m.container_cls(ex, st, v) in ('list', 'tuple', 'deque'):
+            it = st.alloc('iterator')
+            st.write_field(it, '__iter_seq__', v)
+            st.write_field(it, '__iter_pos__', vint(0))
+            return [(st, it)]
+        raise Unsupported('iter() of a non-sequence')
+    if name == 'next' and args and args[0].kind == 'ref' and args[0].cls == 'iterator':
+        it = args[0]
+        seqv = ex.concrete_kind(st, st.read_field(it, '__iter_seq__'), ('ref',))
+        pos = unbox_as(st.read_field(it, '__iter_pos__'), 'int').e
+        seq = st.list_seq(seqv)
+        outs = []
+        done = st.fork()
+        done.assume(pos >= z3.Length(seq))
+        if ex.feasible(done):
+            outs.append((done, args[1] if len(args) > 1 else Raise(ex.mk_exc('StopIteration', node))))
+        st.assume(pos < z3.Length(seq))
+        if ex.feasible(st):
+            st.write_field(it, '__iter_pos__', vint(pos + 1))
+            outs.append((st, vany(z3.simplify(seq[pos]))))
+        return outs
     if name == 'len':
         v = ex.concrete_kind(st, args[0], ('ref', 'str', 'bytes'))
         if v.kind in ('str', 'bytes'):
